@@ -12,17 +12,22 @@ import (
 
 // C17 (E): load-time faults recorded by node constructors (division by
 // literal zero, malformed and overflowing numbers, non-integer slice bounds)
-// in every role and after every kind of preceding text: the error is a
-// positioned PlError naming the script, inside the source.
+// and by the lexer (open strings, bad escapes, malformed numbers) in every
+// role, after every kind of preceding text and before every kind of following
+// text: the error is a positioned PlError naming the script, inside the
+// statement that holds the fault.
 
 var (
-	c17LoadFaultTexts = []string{"1 / 0", "1 % 0", "-1e999", "1e", "-0x", "a[1.5:2]", "a[:\"s\"]", "1 / 0.0"}
+	c17LoadFaultTexts = []string{"1 / 0", "1 % 0", "-1e999", "1e", "-0x", "a[1.5:2]", "a[:\"s\"]", "1 / 0.0",
+		// lexical faults: the diagnostic belongs to the statement that holds the bad token, not to the text after it
+		"\"open", "'open", "\"bad \\q escape\"", "`open", "\"\\400\"", "1.2.3"}
 	c17LoadFaultRoles = []string{"b = %s", "f(%s)", "if %s { }", "for x in %s { }", "for ; %s; { }", "x = [1, %s]", "x = {\"k\": %s}", "b = -(%s)", "f(k=%s)\ny = 2", "if a { b = %s } else { c }"}
 	c17LoadFaultPre   = []string{"", "y = 1\n", "# é\n\n", "s = '''a\nb'''\n", "y = 1 ; ", "\r\n\t", "`two\nlines` = 1\n"}
+	c17LoadFaultPost  = []string{"", "\ny = 2\n", "\n\nf(3)"}
 )
 
-// c17LoadFaultCheck returns "" or the description of what is wrong.
-func c17LoadFaultCheck(src string) (class, msg string, rejected bool) {
+// c17LoadFaultCheck returns "" or the description of what is wrong. [lo, hi) is the statement at fault.
+func c17LoadFaultCheck(src string, lo, hi int) (class, msg string, rejected bool) {
 	// a second script with byte-identical text in the same load: each is reported under its own name
 	_, errs := drv.Load(map[string]string{"s.p": src, "dir/twin.p": src})
 	e, bad := errs["s.p"]
@@ -47,6 +52,9 @@ func c17LoadFaultCheck(src string) (class, msg string, rejected bool) {
 		}
 		return strings.SplitN(m, ":", 2)[0], m + "\nerror: " + pe.Error(), true
 	}
+	if p := pe.PosChain[0].Pos; hi > lo && (p < lo || p > hi) {
+		return "outside-the-statement-at-fault", fmt.Sprintf("the statement at fault spans the offsets [%d,%d), the error is reported at offset %d (%d:%d)\nerror: %s", lo, hi, p, pe.PosChain[0].Ln, pe.PosChain[0].Col, pe.Error()), true
+	}
 	return "", "", true
 }
 
@@ -54,19 +62,26 @@ func c17LoadFaults(w *run.Worker) {
 	for _, f := range c17LoadFaultTexts {
 		for _, r := range c17LoadFaultRoles {
 			for _, pre := range c17LoadFaultPre {
-				if !w.Take() {
-					continue
-				}
-				src := pre + fmt.Sprintf(r, f)
-				w.Eval()
-				class, msg, rejected := c17LoadFaultCheck(src)
-				if !rejected {
-					w.Note("load_faults_accepted(decided elsewhere)", 1)
-					continue
-				}
-				w.Outcome("load-fault|" + class + "|" + f)
-				if class != "" {
-					w.Violate("C17:load-fault:"+class, msg+"\n"+src, c17Case{Part: "load-fault", Source: src})
+				for _, post := range c17LoadFaultPost {
+					if !w.Take() {
+						continue
+					}
+					stmt := fmt.Sprintf(r, f)
+					if i := strings.Index(stmt, "\ny = 2"); i >= 0 && strings.HasSuffix(stmt, "\ny = 2") {
+						stmt, post = stmt[:i], stmt[i:]+post // the role brings its own following statement
+					}
+					src := pre + stmt + post
+					lo, hi := len(pre), len(pre)+len(stmt)
+					w.Eval()
+					class, msg, rejected := c17LoadFaultCheck(src, lo, hi)
+					if !rejected {
+						w.Note("load_faults_accepted(decided elsewhere)", 1)
+						continue
+					}
+					w.Outcome("load-fault|" + class + "|" + f)
+					if class != "" {
+						w.Violate("C17:load-fault:"+class, msg+"\n"+src, c17Case{Part: "load-fault", Source: src, Offset: lo, End: hi})
+					}
 				}
 			}
 		}
